@@ -252,6 +252,12 @@ def run(ctx):
     run_r1(ctx, r1)
     r2 = ctx.rule("C01-R2", "request_more / set_chunk_size / request / is_complete are not called from parser code", floor=1)
     run_r2(ctx, r2)
+    # R5: the fast and the byte-wise scanners agree (what arrives in one piece takes the fast path, what arrives in
+    # pieces the byte-wise one): plumbing and exact scanning behaviour of C13, run here too
+    from . import c13
+    r5 = ctx.rule("C01-R5", "the byte-wise digit scanners behave exactly as documented and the fast paths hand over to them unchanged (shared with C13-R3/R4)", floor=60)
+    c13.run_r3(ctx, r5)
+    c13.run_r4(ctx, r5)
     from .c09 import run_r1 as c09_r1
     r3 = ctx.rule("C01-R3", "Interrupted is handled only inside request_more, as a retry that touches no state (shared with C09-R1)", floor=8)
     c09_r1(ctx, r3)
